@@ -251,6 +251,9 @@ def judgeSeq (inp obs : Json) : Except String Verdict := do
   let oops ← getArr obs "ops"
   let stream := getStrD inp "stream"
   let fail := getStrD obs "fail"
+  if fail == "crashed" || fail == "blocked" then
+    return { agree := false, spec := false, sig := "C06:" ++ fail,
+             why := s!"the runtime process {fail}: {getStrD obs "panic"}", cover := ["stream:" ++ stream, fail] }
   if fail != "" then
     return { agree := false, spec := true, why := s!"harness: {fail}", cover := ["stream:" ++ stream, "harness-fail"] }
   if ops.length != oops.length then throw "ops/obs length mismatch"
@@ -361,9 +364,9 @@ def consecutivePairs : List Nat → List (Nat × Nat)
 
 def judgeConc (inp obs : Json) : Except String Verdict := do
   let fail := getStrD obs "fail"
-  if fail == "blocked" then
-    return { agree := false, spec := false, sig := "C06:blocked", why := "callers did not finish within 60 s",
-             cover := ["kind:conc", "blocked"] }
+  if fail == "crashed" || fail == "blocked" then
+    return { agree := false, spec := false, sig := "C06:" ++ fail,
+             why := s!"the runtime process {fail}: {getStrD obs "panic"}", cover := ["kind:conc", fail] }
   if fail != "" then
     return { agree := false, spec := true, why := s!"harness: {fail}", cover := ["kind:conc", "harness-fail"] }
   let early ← (← getArr inp "plugins").zipIdx.mapM fun (j, i) => decSpec i j
